@@ -90,6 +90,32 @@ fn implementation_cases(thorough: bool) -> Vec<Case> {
             }
         }
     }
+    // 1b. the same rule when `implements` is declared only by an extension (of the type, or of the interface's parent)
+    for (i, ti) in types.iter().enumerate() {
+        for (o, to) in types.iter().enumerate() {
+            if (i * 13 + o * 5) % (if thorough { 3 } else { 11 }) != 0 {
+                continue;
+            }
+            let valid = is_sub(to, ti);
+            let why = if valid { "the field type is a subtype".to_string() } else { "the field type is not a subtype of the interface field's type".to_string() };
+            v.push(Case {
+                family: "implements declared by an extension",
+                label: format!("extend type O implements I; I.f: {}; O.f: {}", show(ti), show(to)),
+                schema: format!("{BASE}interface I {{ f: {} }}\ntype O {{ f: {} }}\nextend type O implements I\n", show(ti), show(to)),
+                expect_valid: valid,
+                why: why.clone(),
+            });
+            v.push(Case {
+                family: "implements declared by an extension",
+                label: format!("extend interface O implements I (and a directive-only extension before it); I.f: {}; O.f: {}", show(ti), show(to)),
+                schema: format!("{BASE}directive @t on INTERFACE\ninterface I {{ f: {} }}\ninterface O {{ f: {} }}\nextend interface O @t\nextend interface O implements I\n", show(ti), show(to)),
+                expect_valid: valid,
+                why,
+            });
+        }
+    }
+    v.push(Case { family: "implements declared by an extension", label: "extension adds the interface, field missing".into(), schema: format!("{BASE}interface I {{ f: Int g: Int }}\ntype O {{ f: Int }}\nextend type O implements I\n"), expect_valid: false, why: "a field of the interface is missing".into() });
+    v.push(Case { family: "implements declared by an extension", label: "extension adds the interface and the missing field".into(), schema: format!("{BASE}interface I {{ f: Int g: Int }}\ntype O {{ f: Int }}\nextend type O implements I {{ g: Int }}\n"), expect_valid: true, why: "all fields present after merging".into() });
     // 2. arguments
     let l = |t: Ty| Ty::List(Box::new(t));
     let nn = |t: Ty| Ty::NonNull(Box::new(t));
